@@ -17,6 +17,7 @@ R10.8 block loops keep their accumulators: in the stitched block functions no st
       loop-computed register only after it (all iterations but the last would be lost).
 R10.9 the stitched block functions read the input only within [0, 1024 * num_blocks) (length skeleton, 1..3 blocks).
 R10.11 byte-order masks are constants in the stitched block functions (as C01 R01.9).
+R10.12 the frame buffer is aligned upwards (as C05 R05.12).
 R10.10 byte conservation of the five stitched update functions on the IR skeleton, as C05 R05.9.
 R10.4 every block implementation (the four stitched assembly functions and the scalar C block function) carries
       MurmurHash3_x64_128's block constants c1, c2, 0x52dce729, 0x38495ab5; the unit with the tail / finalisation
@@ -236,6 +237,8 @@ def run(chk):
     chk.floor("(carried, len) cases followed on the IR skeleton", ncase, 150)
     nsm, nsh = mhrules.shuffle_mask_rule(chk, "R10.11", lib, r"^_?mh_sha1_murmur3_x64_128_block_\w+$")
     chk.floor("stitched block functions checked for constant byte-shuffle masks", nsm, 4)
+    nal = mhrules.align_up_rule(chk, "R10.12", {k: v for k, v in mods.items() if k.startswith(DIR + "/")})
+    chk.floor("pointer alignments by masking judged", nal, 5)
     nbb = mhrules.block_bounds(chk, "R10.9", lib, {k: v for k, v in mods.items() if k.startswith(DIR + "/")}, "_mh_sha1_murmur3_x64_128_block")
     chk.floor("stitched block functions followed on the length skeleton", nbb, 4)
     nls = mhrules.loop_state_rule(chk, "R10.8", lib, r"^_mh_sha1_murmur3_x64_128_block_\w+$")
